@@ -172,7 +172,25 @@ func solveAll(obls []*Obligation, dir string, jobs int, timeoutS int, thorough b
 				return
 			}
 			r.Status = "unknown"
+			// ground core first: dropping the quantified assumptions only weakens the hypotheses, so unsat is a proof;
+			// it is decided in milliseconds where the full query costs seconds (the engine instantiates the
+			// quantified facts it needs itself)
+			if full := o.smt(); strings.Contains(full, "forall") {
+				gf := strings.TrimSuffix(file, ".smt2") + ".g0.smt2"
+				if err := os.WriteFile(gf, []byte(o.smtGround()), 0o644); err == nil {
+					st, _, el := runBackend(backends[0], gf, 2, false)
+					r.TimeS += el
+					os.Remove(gf)
+					if st == "unsat" {
+						r.Status, r.Backend = "unsat", backends[0].name+"(ground)"
+						r.Tried = append(r.Tried, fmt.Sprintf("%s-ground=unsat(%.2fs)", backends[0].name, el))
+					}
+				}
+			}
 			for _, b := range backends {
+				if r.Status == "unsat" && !thorough {
+					break
+				}
 				st, out, el := runBackend(b, file, timeoutS, false)
 				r.TimeS += el
 				r.Tried = append(r.Tried, fmt.Sprintf("%s=%s(%.2fs)", b.name, st, el))
